@@ -97,8 +97,20 @@ def run_rotation(run, shape, timeout):
   # inverse with the same key restores the input in its original shape
   symi = (rot_placeholder(d), key)
   ctx2 = ctx
-  inv, pcs, _, _ = sj.run_symbolic(lambda r, k: wh.inverse_structured_rotation(r, k, jnp.asarray(oshape_c)),
-                                   jh.abstract_of(symi), (rot, key), ctx=ctx2)
+  # the shape object is handed back exactly as the forward call returns it (same values AND dtype)
+  shape_dtype = jax.eval_shape(lambda v, k: wh.structured_rotation(v, k)[1], jax.ShapeDtypeStruct(shape, np.float32),
+                               jax.ShapeDtypeStruct((2,), np.uint32)).dtype
+  try:
+    inv, pcs, _, _ = sj.run_symbolic(lambda r, k: wh.inverse_structured_rotation(r, k, jnp.asarray(oshape_c, dtype=shape_dtype)),
+                                     jh.abstract_of(symi), (rot, key), ctx=ctx2)
+  except Exception as e:   # pylint: disable=broad-except
+    if jh.engine_fault(e):
+      raise
+    run.ob(nm + ':inverse:raises', 'sat', detail=repr(e)[:300])
+    data = {'kind': 'rot', 'shape': list(shape), 'x': np.ones(shape).tolist()}
+    ok, msg = replay_subprocess('C18', data)
+    run.violation('rot:%s:inverse-raises' % (shape,), 'inverse_structured_rotation with the shape returned by structured_rotation raises for input shape %s: %s' % (shape, msg), data, ok)
+    return
   goals2 = [('inverse-shape', tuple(inv.shape) == tuple(shape))]
   if tuple(inv.shape) == tuple(shape):
     for idx in np.ndindex(*shape):
